@@ -85,13 +85,13 @@ theorem frame_addAt (nss : List NS) (i : Nat) (k : Name) (v : Obj) : Frame nss (
   · rw [getNs_addAt_ne _ _ _ _ _ hj]; exact NS.Sub.refl _
 
 theorem getNs_mem {nss : List NS} {i : Nat} (h : i < nss.length) : getNs nss i ∈ nss := by
-  unfold getNs
-  rw [List.getD_eq_getElem _ _ h]
+  have : getNs nss i = nss[i] := by simp [getNs, List.getD, h]
+  rw [this]
   exact List.getElem_mem h
 
 theorem mem_getNs {nss : List NS} {ns : NS} (h : ns ∈ nss) : ∃ i, i < nss.length ∧ getNs nss i = ns := by
   obtain ⟨i, hi, rfl⟩ := List.getElem_of_mem h
-  exact ⟨i, hi, by unfold getNs; rw [List.getD_eq_getElem _ _ hi]⟩
+  exact ⟨i, hi, by simp [getNs, List.getD, hi]⟩
 
 /-! ### tryImport -/
 
@@ -130,8 +130,7 @@ theorem tryImport_spec (imp : Import) (tgt : Nat) (loop : Bool) (st : State W) :
     rw [this]; exact ⟨rfl, Or.inl ⟨hf, rfl⟩⟩
   · cases hres : (U.exec st.w imp).1 with
     | none =>
-      have hr : r = (false, { st with w := (U.exec st.w imp).2, failed := imp :: st.failed,
-              log := st.log ++ [⟨imp, none, tgt, loop, st.nss, st.nss⟩] }) := by
+      have hr : r = (false, { st with w := (U.exec st.w imp).2, failed := imp :: st.failed, log := st.log ++ [⟨imp, none, tgt, loop, st.nss, st.nss⟩] }) := by
         simp [r, tryImport, hf, hres]
       rw [hr]
       refine ⟨rfl, Or.inr ⟨⟨imp, none, tgt, loop, st.nss, st.nss⟩, ?_, rfl, rfl, rfl, ?_, ?_, ?_⟩⟩
@@ -142,8 +141,7 @@ theorem tryImport_spec (imp : Import) (tgt : Nat) (loop : Bool) (st : State W) :
     | some imported =>
       cases hpre : (getNs st.nss tgt).lookup (name0 imp) with
       | none =>
-        have hr : r = (true, { st with w := (U.exec st.w imp).2, nss := addAt st.nss tgt (name0 imp) imported,
-              log := st.log ++ [⟨imp, some imported, tgt, loop, st.nss, addAt st.nss tgt (name0 imp) imported⟩] }) := by
+        have hr : r = (true, { st with w := (U.exec st.w imp).2, nss := addAt st.nss tgt (name0 imp) imported, log := st.log ++ [⟨imp, some imported, tgt, loop, st.nss, addAt st.nss tgt (name0 imp) imported⟩] }) := by
           simp [r, tryImport, hf, hres, hpre]
         rw [hr]
         have hnf : ¬ Rec.Failed ⟨imp, some imported, tgt, loop, st.nss, addAt st.nss tgt (name0 imp) imported⟩ := by
@@ -159,8 +157,7 @@ theorem tryImport_spec (imp : Import) (tgt : Nat) (loop : Bool) (st : State W) :
         · intro h; simp at h
         · intro _; rfl
       | some pre =>
-        have hr : r = (pre == imported, { st with w := (U.exec st.w imp).2,
-              log := st.log ++ [⟨imp, some imported, tgt, loop, st.nss, st.nss⟩] }) := by
+        have hr : r = (pre == imported, { st with w := (U.exec st.w imp).2, log := st.log ++ [⟨imp, some imported, tgt, loop, st.nss, st.nss⟩] }) := by
           simp [r, tryImport, hf, hres, hpre]
         rw [hr]
         refine ⟨rfl, Or.inr ⟨⟨imp, some imported, tgt, loop, st.nss, st.nss⟩, ?_, rfl, rfl, rfl, ?_, ?_, ?_⟩⟩
@@ -168,9 +165,9 @@ theorem tryImport_spec (imp : Import) (tgt : Nat) (loop : Bool) (st : State W) :
           intro hnf v hv
           simp at hv; subst hv
           refine Or.inr ⟨?_, rfl⟩
-          by_cases he : pre = v
+          by_cases he : pre = imported
           · subst he; exact hpre
-          · exact absurd (Or.inr ⟨v, pre, rfl, hpre, he⟩) hnf
+          · exact absurd (Or.inr ⟨imported, pre, rfl, hpre, he⟩) hnf
         · constructor
           · intro h
             have : pre = imported := by simpa using h
@@ -190,38 +187,44 @@ end
 
 /-! ### traces -/
 
-/-- `st'` is reached from `st` by import attempts allowed by `P` (import, target index, loop flag),
-    updates of the attempt map and of the world. -/
-inductive Reach (U : Univ W) (P : Import → Nat → Bool → Prop) : State W → State W → Prop
+/-- `st'` is reached from `st` by import attempts allowed by `P` (state at the attempt, import, target
+    index, loop flag), updates of the attempt map and evaluations of `exists`. -/
+inductive Reach (U : Univ W) (P : State W → Import → Nat → Bool → Prop) : State W → State W → Prop
   | refl (st : State W) : Reach U P st st
   | tryImp {st st1 : State W} (imp : Import) (tgt : Nat) (loop : Bool) :
-      Reach U P st st1 → P imp tgt loop → Reach U P st (tryImport U imp tgt loop st1).2
+      Reach U P st st1 → P st1 imp tgt loop → Reach U P st (tryImport U imp tgt loop st1).2
   | setAtt {st st1 : State W} (a : List (Dotted × Bool)) :
       Reach U P st st1 → Reach U P st { st1 with attempted := a }
-  | setW {st st1 : State W} (w : W) :
-      Reach U P st st1 → Reach U P st { st1 with w := w }
+  | doExists {st st1 : State W} (p : Dotted) :
+      Reach U P st st1 → Reach U P st (st1.withW (U.exists_ st1.w p).2)
 
 namespace Reach
-variable {U : Univ W} {P Q : Import → Nat → Bool → Prop}
+variable {U : Univ W} {P Q : State W → Import → Nat → Bool → Prop}
 
 theorem trans {a b c : State W} (h1 : Reach U P a b) (h2 : Reach U P b c) : Reach U P a c := by
   induction h2 with
   | refl => exact h1
   | tryImp imp tgt loop _ hp ih => exact .tryImp imp tgt loop ih hp
   | setAtt a _ ih => exact .setAtt a ih
-  | setW w _ ih => exact .setW w ih
+  | doExists p _ ih => exact .doExists p ih
 
-theorem mono (hpq : ∀ i t l, P i t l → Q i t l) {a b : State W} (h : Reach U P a b) : Reach U Q a b := by
+theorem withAtt {a b : State W} (h : Reach U P a b) (k : Dotted) (v : Bool) : Reach U P a (b.withAtt k v) :=
+  .setAtt _ h
+
+theorem mono (hpq : ∀ s i t l, P s i t l → Q s i t l) {a b : State W} (h : Reach U P a b) : Reach U Q a b := by
   induction h with
   | refl => exact .refl _
-  | tryImp imp tgt loop _ hp ih => exact .tryImp imp tgt loop ih (hpq _ _ _ hp)
+  | tryImp imp tgt loop _ hp ih => exact .tryImp imp tgt loop ih (hpq _ _ _ _ hp)
   | setAtt a _ ih => exact .setAtt a ih
-  | setW w _ ih => exact .setW w ih
+  | doExists p _ ih => exact .doExists p ih
 
 /-- the new part of the log, with the facts about every record -/
-structure LogExt (U : Univ W) (P : Import → Nat → Bool → Prop) (a b : State W) (new : List Rec) : Prop where
+structure LogExt (U : Univ W) (P : State W → Import → Nat → Bool → Prop) (a b : State W) (new : List Rec) : Prop where
   log_eq : b.log = a.log ++ new
-  allowed : ∀ r ∈ new, P r.imp r.tgt r.loop
+  /-- every record was executed in a state `s` in which `P` allowed it; it records that state's
+      namespaces and what the statement yielded there -/
+  allowed : ∀ r ∈ new, ∃ s : State W, P s r.imp r.tgt r.loop ∧ s.nss = r.before ∧
+    r.res = (U.exec s.w r.imp).1 ∧ Frame a.nss s.nss
   failed_same : ∀ r ∈ new, r.Failed → r.after = r.before
   frame : ∀ r ∈ new, Frame r.before r.after
   not_failed : ∀ r ∈ new, r.imp ∉ a.failed
@@ -240,7 +243,7 @@ theorem invariants {a b : State W} (h : Reach U P a b) :
   | setAtt att _ ih =>
     obtain ⟨hf, hfl, new, hl⟩ := ih
     exact ⟨hf, hfl, new, ⟨hl.log_eq, hl.allowed, hl.failed_same, hl.frame, hl.not_failed, hl.raised_failed, hl.no_retry, hl.origin⟩⟩
-  | setW w _ ih =>
+  | doExists p _ ih =>
     obtain ⟨hf, hfl, new, hl⟩ := ih
     exact ⟨hf, hfl, new, ⟨hl.log_eq, hl.allowed, hl.failed_same, hl.frame, hl.not_failed, hl.raised_failed, hl.no_retry, hl.origin⟩⟩
   | @tryImp st1 imp tgt loop _ hp ih =>
@@ -271,7 +274,8 @@ theorem invariants {a b : State W} (h : Reach U P a b) :
         · intro r hr
           rcases List.mem_append.1 hr with h | h
           · exact hl.allowed r h
-          · simp at h; subst h; rw [hok.imp_eq, hok.tgt_eq, hok.loop_eq]; exact hp
+          · simp at h; subst h; rw [hok.imp_eq, hok.tgt_eq, hok.loop_eq]
+            exact ⟨st1, hp, hok.before_eq.symm, hok.res_eq, hf⟩
         · intro r hr
           rcases List.mem_append.1 hr with h | h
           · exact hl.failed_same r h
